@@ -28,6 +28,8 @@ func init() {
 			{Name: fmt.Sprintf("req-connection-loss-hist-D%d", d+1), Mode: "hist", Bound: 0, Reset: kit.ResetGlobals,
 				Body: func() { histFaults(d + 1) }, NeedCounters: []string{"stale-ignored", "reply-delivered", "retransmitted", "send-waited-for-a-peer", "abandoned-while-queued", "stale-after-queued-abandon-ignored", "given-up-after-loss-without-retry"}},
 			{Name: "req-sched-send-recv-reply", Mode: "sched", Bound: b, Reset: kit.ResetGlobals, Body: schedSendRecvReply},
+			{Name: "req-sched-abandoned-recv-vs-fast-reply", Mode: "sched", Bound: b, Reset: kit.ResetGlobals, Body: schedFastReply},
+			{Name: "req-reply-before-transmission", Mode: "enum", Reset: kit.ResetGlobals, Body: replyBeforeTransmission, NeedCounters: []string{"guessed-reply-ignored"}},
 			{Name: "req-shared-message-two-contexts", Mode: "sched", Bound: b, Reset: kit.ResetGlobals, Body: schedSharedMessage},
 			{Name: "req-sched-two-ctx", Mode: "sched", Bound: b, Reset: kit.ResetGlobals, Body: schedTwoCtx},
 		}
@@ -676,6 +678,131 @@ func schedTwoCtx() {
 	if !r3.Done() || r3.Err != mangos.ErrProtoState {
 		kit.Failf("sched2-second-recv", "second Recv on a: done=%v %s / %v", r3.Done(), kit.ErrName(r3.Err), r3.Val)
 	}
+}
+
+// schedFastReply: a Recv is pending for request 1; the application sends request 2 and the peer
+// answers it at once - the reply to request 2 can be there before the abandoned Recv has noticed
+// that it was abandoned.  That Recv fails with the cancellation error (it never returns the reply
+// to a request it was not called for) and the next Recv returns the reply to request 2.
+func schedFastReply() {
+	w := setup(1)
+	m := w.ctxs[0]
+	w.doSend(m)
+	r1 := kit.Start("Recv1", func() (interface{}, error) { b, err := m.recvCall(); return string(b), err })
+	kit.Quiesce()
+	// Send2 and the peer's answer run on this thread, back to back
+	if err := m.send([]byte("q2")); err != nil {
+		kit.Failf("sched-send2", "second Send: %s", kit.ErrName(err))
+	}
+	var id2 uint32
+	for id2 == 0 {
+		for _, sm := range w.newWire() {
+			if string(sm.Data[4:]) == "q2" {
+				id2 = binary.BigEndian.Uint32(sm.Data)
+			}
+		}
+		if id2 == 0 {
+			kit.Yield()
+		}
+	}
+	w.pipes[1].Deliver(reply(id2, "reply-2"))
+	kit.Quiesce()
+	if !r1.Done() {
+		kit.Failf("sched-recv1-blocked", "Recv of the first request still blocked after a new request was sent")
+	}
+	if r1.Err != mangos.ErrCanceled {
+		kit.Failf("abandoned-recv-result", "the Recv that was waiting for request 1 returned %s / %q after request 2 was sent and answered; it must fail with ErrCanceled", kit.ErrName(r1.Err), r1.Val)
+	}
+	r2 := kit.Start("Recv2", func() (interface{}, error) { b, err := m.recvCall(); return string(b), err })
+	kit.Quiesce()
+	if !r2.Done() || r2.Err != nil || r2.Val.(string) != "reply-2" {
+		kit.Failf("sched-recv2-result", "Recv for request 2 (answered): done=%v %s / %q, want \"reply-2\"", r2.Done(), kit.ErrName(r2.Err), r2.Val)
+	}
+	kit.Observe("ok")
+}
+
+// replyBeforeTransmission: the only connection is busy (its peer is slow to take what it was
+// given), so a further request waits to be transmitted - its Send blocks, or with best effort has
+// already returned.  A frame carrying the id that request is going to have (ids are consecutive)
+// arrives meanwhile.  Nobody can have answered a request that was never sent: the frame is dropped,
+// Recv keeps waiting, and after the request did go out the genuine reply is delivered.
+func replyBeforeTransmission() {
+	bestEffort := kit.ChooseFree(2) == 1
+	who := kit.ChooseFree(2)  // which context's request waits
+	early := kit.ChooseFree(2) // the frame arrives before (0) / after (1) Recv was called
+	w := setup(2)
+	w.pipes[1].DropNow()
+	kit.Quiesce()
+	a, b := w.ctxs[1-who], w.ctxs[who]
+	// one complete exchange tells us where the id sequence stands
+	w.doSend(a)
+	id0 := a.cur
+	w.deliver(0, id0, "first")
+	w.doRecv(a)
+	kit.Quiesce()
+	w.settle()
+	w.pipes[0].Hold(true)
+	if bestEffort {
+		for _, m := range w.ctxs {
+			var err error
+			if m.c != nil {
+				err = m.c.SetOption(mangos.OptionBestEffort, true)
+			} else {
+				err = m.s.SetOption(mangos.OptionBestEffort, true)
+			}
+			if err != nil {
+				kit.Failf("setup", "BestEffort: %s", kit.ErrName(err))
+			}
+		}
+	}
+	sa := kit.Start("Send:"+a.name, func() (interface{}, error) { return nil, a.send([]byte("second")) })
+	kit.Quiesce()
+	sb := kit.Start("Send:"+b.name, func() (interface{}, error) { return nil, b.send([]byte("third")) })
+	kit.Quiesce()
+	if !sa.Done() || sa.Err != nil {
+		kit.Failf("setup", "second Send: done=%v %s", sa.Done(), kit.ErrName(sa.Err))
+	}
+	if sb.Done() != bestEffort {
+		kit.Failf("send-while-peer-busy", "the only peer is busy: Send done=%v (best effort %v)", sb.Done(), bestEffort)
+	}
+	guess := id0 + 2
+	var rb *kit.Call
+	if early == 1 {
+		rb = kit.Start("Recv:"+b.name, func() (interface{}, error) { x, err := b.recvCall(); return string(x), err })
+		kit.Quiesce()
+	}
+	w.pipes[0].Deliver(reply(guess, "never-sent-in-answer"))
+	kit.Quiesce()
+	if early == 0 {
+		rb = kit.Start("Recv:"+b.name, func() (interface{}, error) { x, err := b.recvCall(); return string(x), err })
+		kit.Quiesce()
+	}
+	if rb.Done() {
+		kit.Failf("reply-before-transmission", "%s: its request has not been handed to any connection yet, a frame with id %08x arrived, and Recv returned %s / %q", b.name, guess, kit.ErrName(rb.Err), rb.Val)
+	}
+	kit.Count("guessed-reply-ignored")
+	w.pipes[0].Hold(false)
+	w.pipes[0].Take(10)
+	kit.Quiesce()
+	if !sb.Done() || sb.Err != nil {
+		kit.Failf("send-blocked", "the peer takes again: Send done=%v %s", sb.Done(), kit.ErrName(sb.Err))
+	}
+	var idb uint32
+	for _, sm := range w.newWire() {
+		if string(sm.Data[4:]) == "third" {
+			idb = binary.BigEndian.Uint32(sm.Data)
+		}
+	}
+	if idb == 0 {
+		kit.Failf("request-never-sent", "%s: the peer takes again but the waiting request was never transmitted", b.name)
+	}
+	w.pipes[0].Deliver(reply(idb, "genuine"))
+	kit.Quiesce()
+	if !rb.Done() || rb.Err != nil || rb.Val.(string) != "genuine" {
+		kit.Failf("recv-wrong-reply", "%s: Recv done=%v %s / %q, want the genuine reply", b.name, rb.Done(), kit.ErrName(rb.Err), rb.Val)
+	}
+	kit.Observe("be=%v who=%d early=%d guess-ok=%v", bestEffort, who, early, idb == guess)
+	kit.Must("Socket.Close", func() { _ = w.sock.Close() })
 }
 
 // schedSharedMessage: the application sends one message, cloned, as a request on two contexts
